@@ -334,6 +334,8 @@ fn aggs_json(c: &str) -> Result<Option<Value>> {
     "histogram_interval_negative" => json!({"a": hist(json!({"interval": -5}))}),
     "histogram_interval_tiny" => json!({"a": hist(json!({"interval": 1e-300, "min_doc_count": 1}))}),
     "histogram_bounds_inverted" => json!({"a": hist(json!({"min_doc_count": 0, "extended_bounds": {"min": 2030.0, "max": 1990.0}, "hard_bounds": {"min": 2010.0, "max": 2000.0}}))}),
+    "histogram_bounds_saturated" => json!({"a": hist(json!({"interval": 1, "extended_bounds": {"min": 1.0e300, "max": 1.0e300}}))}),
+    "histogram_hard_bounds_saturated" => json!({"a": hist(json!({"interval": 0.5, "hard_bounds": {"min": -1.0e300, "max": -1.0e300}}))}),
     "histogram_bounds_wide" => json!({"a": hist(json!({"interval": 1, "min_doc_count": 0, "extended_bounds": {"min": -1.0e6, "max": 1.0e6}, "offset": 0.5, "missing": -7.5}))}),
     "range_inverted" => json!({"a": {"type": "range", "field": "price", "keyed": true, "ranges": [{"from": 50.0, "to": 10.0}, {"key": "", "from": 1e308, "to": -1e308}]}}),
     "range_empty" => json!({"a": {"type": "range", "field": "price", "keyed": true, "ranges": []}}),
